@@ -118,7 +118,10 @@ def make(rng, shape, json_layer):
         c["data"] = rand_ddata(rng, 0, cls == "node")
         c["data_shared"] = rng.random() < 0.5
     if c["attriter"] == "drop_a" and rng.random() < 0.5:
-        c["via_subclass"] = True       # the same customisation through a DictExporter subclass (overridden method)
+        # the same customisation through a DictExporter subclass: an overridden export(), or the overridden attribute hook
+        c["via_subclass"] = rng.choice([True, "iterattr"])
+    if rng.random() < 0.15:
+        c["nested_export"] = True      # a callback exporting with the same exporter while an export is running
     if rng.random() < 0.3 and not c.get("via_subclass"):
         # the same DictExporter object exported before, and a user hook aborted that export at its k-th node
         c["prior"] = [rng.randrange(1, atree_size(t) + 1) for _ in range(rng.choice([1, 1, 2]))]
@@ -145,7 +148,7 @@ def make(rng, shape, json_layer):
             c["defaults"] = True
         else:
             if rng.random() < 0.5 and not c.get("prior"):
-                c["attriter"], c["via_subclass"] = "drop_a", True     # a DictExporter subclass as the custom exporter
+                c["attriter"], c["via_subclass"] = "drop_a", rng.choice([True, "iterattr"])     # a DictExporter subclass as the custom exporter
             c["dictmaxlevel"] = c["maxlevel"]        # the custom dictexporter's own maxlevel …
             c["maxlevel"] = jmax if jmax is not None else c["maxlevel"]   # … is overridden by the JSON exporter's
             c["defaults"] = False
